@@ -377,6 +377,11 @@ class Schema:
                 return T(r.choice(SMALL_LEAVES))
             c = r.choice(["list", "dict", "opt", "opt", "dc", "dc", "child", "dunion", "tuplevar", "set", "frozenset", "nt", "td"])
             if c == "tuplevar":
+                if r.random() < 0.5:
+                    ts = [self.gen_type(depth - 1) for _ in range(r.randint(1, 3))]
+                    name = self.fresh("Tup")
+                    self.classes[name] = {"kind": "fix", "fields": [(f"i{i}", t, None) for i, t in enumerate(ts)]}
+                    return T("tuplefix", ts, name=name)
                 return T("tuplevar", self.gen_type(depth - 1))
             if c in ("set", "frozenset"):
                 return T(c, self.new_enum() if r.random() < 0.3 else T(r.choice(HASHABLE_LEAVES)))
@@ -1031,6 +1036,8 @@ def coq_ty(t: T, S: Schema) -> str:
         return f"(TData {_cs(t.name)})"
     if k == "tuplevar":
         return f"(TColl CTuple {coq_ty(t.args[0], S)})"
+    if k == "tuplefix":
+        return f"(TFix {_cs(t.name)})"
     if k == "set":
         return f"(TColl CSet {coq_ty(t.args[0], S)})"
     if k == "frozenset":
@@ -1057,7 +1064,7 @@ def coq_env(S: Schema) -> str:
     """class table: every generated dataclass with its (inherited, flattened) field declarations"""
     out = []
     for name, c in S.classes.items():
-        if c["kind"] not in ("dc", "nt", "td"):
+        if c["kind"] not in ("dc", "nt", "td", "fix"):
             continue
         out.append("(%s, [%s])" % (_cs(name), "; ".join(
             "(%s, (%s, %s))" % (_cs(f), coq_ty(ft, S), "true" if (d == "None" and c["kind"] == "dc") else "false")
